@@ -1,6 +1,7 @@
 package props
 
 import (
+	"regexp"
 	"fmt"
 	"go/ast"
 	"go/types"
@@ -118,9 +119,26 @@ func fieldTypeTables(c *eng.Ctx) {
 		}
 	}
 	// the binary combine step
-	ag, ok := switchTable(pk, funcDecl(pk, "Aggregate", "AggType"))
+	agDecl := funcDecl(pk, "Aggregate", "AggType")
+	ag, ok := switchTable(pk, agDecl)
 	if !ok {
 		c.Undecided("AggType.Aggregate switch not found")
+	}
+	// the two operands by position, whatever the parameters are called: first -> a, second -> b
+	if agDecl != nil && agDecl.Type.Params != nil {
+		var names []string
+		for _, f := range agDecl.Type.Params.List {
+			for _, id := range f.Names {
+				names = append(names, id.Name)
+			}
+		}
+		if len(names) == 2 && names[0] != names[1] {
+			for k, v := range ag {
+				v = regexp.MustCompile(`\b`+regexp.QuoteMeta(names[0])+`\b`).ReplaceAllString(v, "\x00")
+				v = regexp.MustCompile(`\b`+regexp.QuoteMeta(names[1])+`\b`).ReplaceAllString(v, "b")
+				ag[k] = strings.ReplaceAll(v, "\x00", "a")
+			}
+		}
 	}
 	forms := map[string][]string{
 		"Sum": {"a + b", "b + a"}, "Count": {"a + b", "b + a"}, "Last": {"b"}, "First": {"a"},
